@@ -8,6 +8,8 @@ package contextualizers
 //@ func (*genericContextualizer).Execute
 //@   props C10
 
+// "... and values": every rendered value goes into the key, name and value, one pair per entry of the
+// sorted key list (cut-point assertions on the two writeDelimited calls of the loop + their count)
 //@ func (*genericContextualizer).calculateCacheKey
 //@   props C11
 //@   callsites Write 3
@@ -20,6 +22,10 @@ package contextualizers
 //@   ensures (exists k int :: old(hw.n) <= k && k < hw.n && hw.arg0[k] == shanew.ret0[old(shanew.n)] && hw.arg1[k] == bytesOf(old(h.id)))
 //@   ensures (exists k int :: old(hw.n) <= k && k < hw.n && hw.arg0[k] == shanew.ret0[old(shanew.n)] && hw.arg1[k] == bytesOf(payload))
 //@   ensures (exists k int :: old(hw.n) <= k && k < hw.n && hw.arg0[k] == shanew.ret0[old(shanew.n)] && hw.arg1[k] == shash.ret0[old(shash.n)])
+//@   callsites writeDelimited 6
+//@   assert at call writeDelimited#5@4305e1b5.1: callarg1 == bytesOf(k)
+//@   assert at call writeDelimited#6@1178506b.1: callarg1 == bytesOf(values[k])
+//@   loop 0 invariant wdel.n - atloop(wdel.n) == 2 * (idx + 1)
 
 // C11: "adversarially shifted across component boundaries": everything of variable length that goes
 // into a cache key digest is written through writeDelimited, i.e. preceded by its length (8 bytes,
